@@ -255,6 +255,18 @@ class _CanonTree(_Canon):
                         ast.copy_location(n, node)
                 node.iter = g.iter
                 node.body = [guard, *node.body]
+        # for x in filter(f, D):  ->  for x in D: if not f(x): continue   (f a plain name; filter(None, D) keeps the truthy elements)
+        it = node.iter
+        if isinstance(it, ast.Call) and isinstance(it.func, ast.Name) and it.func.id == "filter" and len(it.args) == 2 and not it.keywords and isinstance(node.target, ast.Name) \
+                and (isinstance(it.args[0], ast.Name) or (isinstance(it.args[0], ast.Constant) and it.args[0].value is None)):
+            xv_ = ast.Name(node.target.id, ast.Load())
+            cond = xv_ if isinstance(it.args[0], ast.Constant) else ast.Call(ast.Name(it.args[0].id, ast.Load()), [xv_], [])
+            guard = ast.If(_Canon().visit(ast.UnaryOp(ast.Not(), cond)), [ast.Continue()], [])
+            for n in ast.walk(guard):
+                if isinstance(n, (ast.expr, ast.stmt)):
+                    ast.copy_location(n, node)
+            node.iter = it.args[1]
+            node.body = [guard, *node.body]
         return node
 
     def visit_If(self, node: ast.If) -> ast.AST:
